@@ -253,7 +253,9 @@ def run_group(klepto, group, km, mode, variant=None, cache=None):
     if kind in ('method', 'method0'):
         # method0: the instance parameter is called `this` and is ignored by its INDEX 0
         mfunc, msrc = make_func(group['sig'], method='this' if kind == 'method0' else True)
-        ign_m = ((0,) if kind == 'method0' else ('self',)) + (ignore if isinstance(ignore, tuple) else (ignore,))
+        # (an index of the catalogue counts the function's own parameters: on the method the instance is index 0)
+        own = tuple((x + 1) if isinstance(x, int) else x for x in (ignore if isinstance(ignore, tuple) else (ignore,)))
+        ign_m = ((0,) if kind == 'method0' else ('self',)) + own
         ns = {}
         mod = klepto.safe if mode == 'safe' else klepto
         deco = mod.inf_cache(keymap=keymap, ignore=ign_m) if cached else klepto.keygen(*ign_m, keymap=keymap)
